@@ -173,6 +173,11 @@ fn text_cases() -> Vec<TextCase> {
         out.push(TextCase { name: format!("definition only, registers {:?}", comp), text: format!("{}gate foo a {{ h a; }}\n", t), expect: Some((n, vec![])), tol: 0.0 });
         out.push(TextCase { name: format!("one gate on the last qubit, registers {:?}", comp), text: format!("{}x {}[{}];\n", t, names[comp.len() - 1], comp[comp.len() - 1] - 1), expect: Some((n, vec![("x".to_string(), vec![n - 1], 0, 1)])), tol: 0.0 });
     }
+    // registers declared after the first statement (OpenQASM 2 allows declarations anywhere): still consecutive qubits in
+    // declaration order, and gates on the late register land there
+    out.push(TextCase { name: "late register".into(), text: format!("{}qreg q[2];\nh q[0];\nqreg r[2];\ncx q[0], r[1];\nx r[0];\n", hdr()), expect: Some((4, vec![("h".into(), vec![0], 0, 1), ("cx".into(), vec![0, 3], 0, 1), ("x".into(), vec![2], 0, 1)])), tol: 0.0 });
+    out.push(TextCase { name: "late register after a definition".into(), text: format!("{}qreg a[1];\ngate foo x {{ h x; }}\nfoo a[0];\nqreg b[2];\ncreg m[1];\nqreg c[1];\ncz b[1], c[0];\n", hdr()), expect: Some((4, vec![("h".into(), vec![0], 0, 1), ("cz".into(), vec![2, 3], 0, 1)])), tol: 0.0 });
+    out.push(TextCase { name: "late register unused".into(), text: format!("{}qreg a[1];\nx a[0];\nqreg b[3];\n", hdr()), expect: Some((4, vec![("x".into(), vec![0], 0, 1)])), tol: 0.0 });
     // user-defined gates are expanded, comments and whitespace ignored
     out.push(TextCase { name: "gate definition".into(), text: format!("{}qreg q[2];\ngate foo a, b {{ h a; cx a, b; }}\n// comment\nfoo q[1], q[0];\n", hdr()), expect: Some((2, vec![("h".into(), vec![1], 0, 1), ("cx".into(), vec![1, 0], 0, 1)])), tol: 0.0 });
     out.push(TextCase { name: "all plain gates".into(), text: format!("{}qreg q[3];\nx q[0]; z q[1]; s q[2]; t q[0]; sdg q[1]; tdg q[2]; h q[0]; cx q[0],q[1]; cz q[1],q[2]; ccx q[0],q[1],q[2]; ccz q[2],q[1],q[0]; swap q[0],q[2]; xcx q[1],q[0]; init_anc q[2]; post_sel q[2];\n", hdr()),
